@@ -727,6 +727,21 @@ def check_stepwise(chk, drv, case):
     if case['nan_rate']:
         chk.count('sw_nan_injected')
     start = list(range(p)) if case['dir'] == 'backward' else []
+    # ---- D (before any early return of K): the search space is the documented one.  `order_interaction=k` explores
+    # the main effects and every interaction up to order k (a product of up to k+1 distinct columns); backward
+    # selection "starts from the full model inclusion", forward selection tries every term as its first step.
+    if log and not any(-1 in c for c, _ in log):
+        if case['dir'] == 'backward':
+            absent = sorted(set(range(p)) - set(log[0][0]))
+            chk.d(not absent, 'backward selection starts from the full model (all main effects and all interactions '
+                  'up to the requested order)', {'case': case, 'terms_documented': p, 'absent_from_first_model': absent,
+                                                 'first_model': log[0][0]} if absent else None)
+        elif out['err'] is None:
+            tried = {c[0] for c, _ in log if len(c) == 1}
+            absent = sorted(set(range(p)) - tried)
+            chk.d(not absent, 'forward selection tries every documented term (main effects and interactions up to the '
+                  'requested order) as its first step', {'case': case, 'terms_documented': p,
+                                                         'never_tried_alone': absent} if absent else None)
     if any(-1 in c for c, _ in log):
         chk.k(False, 'a GLM design column could not be matched to a column of the expanded design',
               {'case': case})
